@@ -219,10 +219,11 @@ def run(ctx):
         is_wt = lambda c: len(c.args) >= 4 and op_local(c.args[3]) is not None and b.local_ty(op_local(c.args[3])) in WT
         fm = [c for c in b.calls() if any(sb.crate == b.crate for sb in local_callee_bodies(F, c)) and is_wt(c)]
         carried = weight_carried(F, b, WT) if not fm else []
-        ctx.check(len(fm) + len(carried) == 1, "R12.2", key + "#single-weighted-format-call", loc(b),
-                  "expected one call passing the multiplicity, found %d" % (len(fm) + len(carried)))
+        n_carriers = len({id(x[4]) for x in carried})          # one `and_then` may be fed by several `Ok(n)` sites: each is judged below
+        ctx.check(len(fm) + n_carriers == 1, "R12.2", key + "#single-weighted-format-call", loc(b),
+                  "expected one call passing the multiplicity, found %d" % (len(fm) + n_carriers))
         # (site whose guards are judged, operand the weight comes from, is it Some(..) at the call, blocks that reject by yielding Err)
-        forms = [(c, c.args[3], None, None) for c in fm] + [(cc, payload, some_, res_locals) for cc, payload, some_, res_locals in carried]
+        forms = [(c, c.args[3], None, None) for c in fm] + [(cc, payload, some_, res_locals) for cc, payload, some_, res_locals, _ in carried]
         for c, w_op, some_c, res_locals in forms:
             o = pr.operand(w_op)
             some = any(x[0] == "agg" and x[2] == WT[b.local_ty(op_local(c.args[3]))] for x in o) if some_c is None else some_c
@@ -333,6 +334,7 @@ def run(ctx):
         return bad
 
     n5 = 0
+    max_visited = 0
     for b in impls:
         direct5 = [(c, c.args[3]) for c in b.calls() if any(sb.crate == b.crate for sb in local_callee_bodies(F, c)) and len(c.args) >= 4 and
                    op_local(c.args[3]) is not None and b.local_ty(op_local(c.args[3])) in weight_types(F)]
@@ -345,7 +347,8 @@ def run(ctx):
                       "the weight handed to the formatter depends on a precision-losing step: %s. A 32-bit reciprocal has 24 significant bits, so for "
                       "rates below about 2^-24 the weight is no longer floor(1/rate) or ceil(1/rate)" % "; ".join(m for _, m in bad[:4]),
                       "data slice of the multiplicity through %s: %d arithmetic/cast steps, none on f32 values" % (sorted(x.split("::")[-1] for x in visited), stats["ops"] + stats["casts"]))
-            ctx.floor("R12.5", "helper bodies in the weight's data slice", len(visited), 2)
+            max_visited = max(max_visited, len(visited))
+    ctx.floor("R12.5", "helper bodies in the weight's data slice", max_visited, 2)
     ctx.floor("R12.5", "arithmetic and cast steps in the weight's data slice", n5, 4)
     # ------------------------------------------------------------------ R12.3
     n3 = 0
@@ -712,7 +715,7 @@ def weight_carried(F, b, WT):
             for i in b.live_blocks():
                 for st in b.stmts(i):
                     if st["k"] == "assign" and st["lhs"]["l"] in al and not st["lhs"].get("p") and st["rv"]["k"] == "agg" and st["rv"].get("variant") == "Ok":
-                        out.append((_Site(i), st["rv"]["ops"][0], some, al | {0}))
+                        out.append((_Site(i), st["rv"]["ops"][0], some, al | {0}, c))
     return out
 
 
